@@ -41,7 +41,7 @@ ASSUMPTIONS = [
     "internal nodes carry explicit unique names",
 ]
 BUDGET = {
-    "quick": {"random": 3000},
+    "quick": {"random": 4000},
     "thorough": {"random": 60000},
 }
 FUZZ = {"thorough": {"runs": 40000, "max_time": 900}}
@@ -59,6 +59,12 @@ def _case(draw):
         # (cross-checked against plain enumeration on every small case of C02/C03/C05 and wherever it still fits here)
         case = draw(gen.rec_case(max_obj=10, max_sp=8, min_obj=6, min_sp=3, costs="coherent", labelled=False))
         case["_large"] = True
+        return case
+    if gen.chance(draw, 1, 4):
+        # a duplicated clade: two sibling subtrees over the same leaf species with different shapes (6..9 leaves)
+        case = draw(gen.duplicated_clade_case(costs="default" if gen.chance(draw, 1, 3) else "coherent"))
+        case["_large"] = True
+        case["_dupclade"] = True
         return case
     if gen.chance(draw, 1, 3):
         # few objects on many species (7..9 leaves, beyond the exhaustive layer): transfer recipients are chosen among
@@ -79,7 +85,7 @@ def strategy(tier):
 
 def check_large(case):
     inst = Instance(case)
-    labels = common_labels(inst, labelled=False) + ["wide" if case.get("_wide") else "large"]
+    labels = common_labels(inst, labelled=False) + ["duplicated_clade" if case.get("_dupclade") else ("wide" if case.get("_wide") else "large")]
     opt, _ = reference(inst, "plain", want_set=False, labels=labels)
     inp = pkg.make_input(case, labelled=False)
     positive = all(inst.c[k] > 0 for k in ("DUPLICATION", "FULL_LOSS", "HORIZONTAL_TRANSFER"))
